@@ -2,6 +2,7 @@ package snowflake_proxy
 
 import (
 	"fmt"
+	"sync"
 	"time"
 )
 
@@ -32,6 +33,7 @@ func (b bytesNullLogger) GetStat() (in int, out int) { return -1, -1 }
 // occuring at reasonable intervals.
 type bytesSyncLogger struct {
 	outboundChan, inboundChan              chan int
+	lock                                   sync.Mutex // protects the totals
 	outbound, inbound, outEvents, inEvents int
 	start                                  time.Time
 }
@@ -51,11 +53,15 @@ func (b *bytesSyncLogger) log() {
 	for {
 		select {
 		case amount := <-b.outboundChan:
+			b.lock.Lock()
 			b.outbound += amount
 			b.outEvents++
+			b.lock.Unlock()
 		case amount := <-b.inboundChan:
+			b.lock.Lock()
 			b.inbound += amount
 			b.inEvents++
+			b.lock.Unlock()
 		}
 	}
 }
@@ -72,6 +78,8 @@ func (b *bytesSyncLogger) AddInbound(amount int) {
 
 // ThroughputSummary view a formatted summary of the throughput totals
 func (b *bytesSyncLogger) ThroughputSummary() string {
+	b.lock.Lock()
+	defer b.lock.Unlock()
 	inbound := b.inbound
 	outbound := b.outbound
 
@@ -82,7 +90,11 @@ func (b *bytesSyncLogger) ThroughputSummary() string {
 	return fmt.Sprintf("Traffic throughput (up|down): %d %s|%d %s -- (%d OnMessages, %d Sends, over %d seconds)", inbound, inUnit, outbound, outUnit, b.outEvents, b.inEvents, int(t.Sub(b.start).Seconds()))
 }
 
-func (b *bytesSyncLogger) GetStat() (in int, out int) { return b.inbound, b.outbound }
+func (b *bytesSyncLogger) GetStat() (in int, out int) {
+	b.lock.Lock()
+	defer b.lock.Unlock()
+	return b.inbound, b.outbound
+}
 
 func formatTraffic(amount int) (value int, unit string) {
 	value = amount
